@@ -48,6 +48,10 @@ CLAIMED = {
             "bounded-exhaustive enumeration of (import block, usage pattern, target location, action, preferences) with CPython execution of the module and of a star-importing client before/after, plus idempotence",
             "Import blocks of <=2 (3) statements over 25 forms (plain, dotted, aliased, from, multi-name, parenthesised, star, relative at two levels, __future__) x per-statement usage (unused, module level, in a function, only in __all__, class keyword, base class, default argument, decorator) x target in the project root / a package / a sub-package x the 5 ImportOrganizer actions x preference sets are run through the real code; the target module and a client must print the same, and applying the action again must change nothing.",
             "library modules define uniquely valued names; re-exports are protected only when listed in __all__; bounded block size", "3/C07"),
+    "C05": ("exploration",
+            "bounded-exhaustive enumeration of (move/rename operation, client location, client import block) with CPython importing every module before/after",
+            "22 operations (MoveGlobal of a function/class/variable to 4 destinations, MoveModule of modules and a package into/out of packages, Rename of module/package/sub-package, ModuleToPackage) x client in the root / a package / a sub-package x every single import style of the moved thing, every ordered pair of styles and every style next to an unrelated import of the destination package are performed with the real code; afterwards every module must import and each client must print what it printed before.",
+            "definitions carry unique values; the moved function calls a sibling helper and an imported module so lost dependencies show", "3/C05"),
 }
 
 PENDING_REASON = "check not built yet in this session (see DESIGN.md section 8 build order); nothing is claimed for it"
